@@ -49,20 +49,21 @@ class Janus:
         rebound = self.rebound
         rb.quiet()
         V = []
-        tag = "order=%d scale=%g N=%d n=%d ic=%d first=%+d userflag=%d" % (order, scale, N, n, which, first, userflag)
+        spos, svel = scale if isinstance(scale, (tuple, list)) else (scale, scale)
+        tag = "order=%d scale_pos=%g scale_vel=%g N=%d n=%d ic=%d first=%+d userflag=%d" % (order, spos, svel, N, n, which, first, userflag)
         G, b, P = ic(which, N)
         sim = rebound.Simulation()
         sim.G = G
         sim.integrator = "janus"
         sim.ri_janus.order = order
-        sim.ri_janus.scale_pos = scale
-        sim.ri_janus.scale_vel = scale
+        sim.ri_janus.scale_pos = spos
+        sim.ri_janus.scale_vel = svel
         ints = []
         for x in b:
             vals = []
             ks = []
             for k in range(1, 7):
-                g, kk = grid(x[k], scale)
+                g, kk = grid(x[k], spos if k <= 3 else svel)
                 vals.append(g)
                 ks.append(kk)
             ints.append(ks)
@@ -203,7 +204,7 @@ def run(ctx):
     jt = []
     ns = [1, 2, 5, 50] + ([500] if ctx.tier == "thorough" else [])
     for order in (2, 4, 6, 8, 10):
-        for scale in (1e-16, 1e-12, 1e-8):
+        for scale in (1e-16, 1e-12, 1e-8, (4e-16, 1e-16), (1e-12, 2e-12)):
             for N in (2, 3, 4):
                 for n in ns:
                     for which in (0, 1, 2, 3):
@@ -244,7 +245,7 @@ def run(ctx):
     cov = {
         "whfast512_cases": n_w512,
         "evaluations": len(jt) + len(st), "distinct_nontrivial": len(jt) + len(st),
-        "rule": "JANUS: order{2,4,6,8,10} x scale{1e-16,1e-12,1e-8} x N{2,3,4} x n{1,2,5,50(,500)} x 4 grid-representable initial conditions x first direction x {plain, recalculation flag set by the user before the run, run started from a state reached after modifying a particle and requesting recalculation once}; "
+        "rule": "JANUS: order{2,4,6,8,10} x (scale_pos,scale_vel) in {1e-16,1e-12,1e-8 equal; (4e-16,1e-16); (1e-12,2e-12)} x N{2,3,4} x n{1,2,5,50(,500)} x 4 grid-representable initial conditions x first direction x {plain, recalculation flag set by the user before the run, run started from a state reached after modifying a particle and requesting recalculation once}; "
                 "symmetric schemes: WHFast x 4 coordinate systems x safe/unsafe, 10 uncorrected SABA types, 18 unprocessed EOS splittings, LEAPFROG on {S3, S4G, hyperbolic flyby} and SEI (free, self-gravitating, shearing box) x n x direction",
         "samples": [list(jt[0]), list(st[0][:1]) + [st[0][1]] + list(st[0][2:])], "observed_max_round_trip_error_in_units_of_u_n_scale": worst, "allowed": ROUND_K, "exhaustive": True,
     }
